@@ -33,6 +33,12 @@ def world():
     for nm in ('ast_us', 'depth', 'opt_depth'):
         w[nm] = z3.Int(nm)
     w['instant_us'] = lambda dt: zint(dt.us) if isinstance(dt, DT) else z3.IntVal(-1)
+    for nm in ('clock_us', 'drift', 'publish_us', 'tsbd', 'mup_n', 'mup_d', 'media_us'):
+        w[nm] = z3.Int(nm)
+    w['drift_none'] = z3.Bool('drift_none')
+    w['has_field'] = lambda o, k: z3.BoolVal(k in o.f)
+    w['primary_profiles'] = {'live': 'profile-live', 'vod': 'profile-vod', 'odvod': 'profile-odvod'}
+    w['additional_profiles'] = {'dvb': 'profile-dvb'}
     w['params_of'] = lambda period, k, kind: z3.BoolVal(
         isinstance(period.f['adaptationSets'], PyList) and len(period.f['adaptationSets'].items) > k and
         period.f['adaptationSets'].items[k].f.get('got_params') == {'k': kind} and
@@ -236,6 +242,59 @@ def create_period_contract():
 CREATE_PERIOD = create_period_contract()
 
 
+def context_init_contract(variant, patch):
+    """ManifestContext.__init__ (single-period flavour, live): the one period is created from a DashTiming built for the
+    request instant itself - now = wall clock minus the requested clock drift, the instant segment requests are judged
+    against (C01) - and the patch location names that timing's publishTime in whole seconds with
+    ttl = max(timeShiftBufferDepth, ceil(minimumUpdatePeriod)) (C09)."""
+    def env(w):
+        opts = Obj('OptionsContainer', {'clockDrift': Opt(z3.Bool('drift_none'), z3.Int('drift')), 'mode': 'live', 'utcMethod': None,
+                                        'patch': patch})
+        stream = Obj('Stream', {'directory': Opaque('dir'), 'title': Opaque('title'),
+                                'timing_reference': Obj('StreamTimingReference', {})})
+        mft = Obj('DashManifest', {'name': Opaque('manifest-name')})
+        return {'self': Obj('ManifestContext', {}), 'options': opts, 'manifest': mft, 'stream': stream, 'multi_period': None}
+
+    def dash_timing(eng, a, kw):
+        eng.ghost_env['timings_built'] = eng.ghost_env.get('timings_built', 0) + 1
+        return Obj('DashTiming', {'now': a[0], 'ref': a[1], 'options': a[2], 'publishTime': DT(z3.Int('publish_us')),
+                                  'timeShiftBufferDepth': z3.Int('tsbd'), 'minimumUpdatePeriod': Ratio(z3.Int('mup_n'), z3.Int('mup_d'))})
+
+    def create_period(eng, e, a, kw):
+        me = eng.lookup('self')
+        me.f['cgi_params'] = Obj('CgiParameterCollection', {'patch': {}})
+        return Obj('Period', {'stream': a[0], 'timing': a[1], 'db_period': kw.get('db_period')})
+    ens = [('now_is_the_request_clock_minus_drift', 'instant_us(self.now) == clock_us - (0 if (drift_none or drift == 0) else 1000000 * drift)'),
+           ('one_period', 'length(self.periods) == 1'),
+           ('period_timing_is_for_the_request_instant', 'instant_us(self.periods[0].timing.now) == instant_us(self.now) and '
+                                                        'self.periods[0].timing.ref is stream.timing_reference and '
+                                                        'self.periods[0].timing.options is options'),
+           ('period_of_the_stream', 'self.periods[0].stream is stream')]
+    if patch:
+        ens += [('patch_names_the_publish_second', 'self.patch.location.publish == publish_us // 1000000'),
+                ('patch_ttl', 'self.patch.ttl == max(tsbd, -((-mup_n) // mup_d))'),
+                ('patch_route', "self.patch.location.route == 'mpd-patch' and self.patch.location.stream is stream.directory and "
+                                'self.patch.location.manifest is manifest.name')]
+    else:
+        ens += [('no_patch_location', "not has_field(self, 'patch')")]
+    return Contract(
+        key=f'{MCX}:ManifestContext.__init__', variant=variant, props=['C01', 'C09'], env=env,
+        requires=[('update_period', 'mup_d >= 1 and mup_n >= 0'), ('depth', 'tsbd >= 0'), ('drift', 'drift >= 0'), ('publish', 'publish_us >= 0')],
+        models={'datetime.datetime.now': lambda eng, e, a, kw: DT(z3.Int('clock_us')), 'UTC': lambda eng, e, a, kw: Opaque('utc'),
+                'self.create_period': create_period,
+                'self.timing_ref.media_duration_timedelta': lambda eng, e, a, kw: TD(z3.Int('media_us')),
+                'flask.url_for': lambda eng, e, a, kw: Obj('Url', dict(kw, route=a[0]))},
+        ctors={'DashTiming': dash_timing, 'PatchLocation': lambda eng, a, kw: Obj('PatchLocation', dict(kw))},
+        ensures=ens,
+        canaries=['instant_us(self.now) == publish_us'],
+        witness_terms=lambda w: (lambda ev: dict({k: ev(z3.Int(k)) for k in ('clock_us', 'drift', 'publish_us', 'tsbd', 'mup_n', 'mup_d', 'media_us')},
+                                                 drift_none=ev(z3.Bool('drift_none')))),
+    )
+
+
+CONTEXT_INIT = [context_init_contract('live-patch', True), context_init_contract('live', False)]
+
+
 def mps_init_get_contract():
     """ServeMpsInitSeg.get: same ownership / option / media checks, then the init segment of THAT period's media file"""
     base = MPS_GET
@@ -395,7 +454,7 @@ LIVE_PERIODS = Contract(
 
 
 GROUP = Group(
-    name='mps', world=world, contracts=MPS_INDEX + [VOD_PERIODS, LIVE_PERIODS] + MPS_GMS + [MPS_GET, MPS_INIT_GET, CREATE_PERIOD],
+    name='mps', world=world, contracts=MPS_INDEX + [VOD_PERIODS, LIVE_PERIODS] + MPS_GMS + [MPS_GET, MPS_INIT_GET, CREATE_PERIOD] + CONTEXT_INIT,
     lemmas=[Lemma('mps_decode_times', ['C12'], lemma_mps_decode_times)],
     assumptions=[
         'C12: create_period returns a Period whose duration is the stored duration of the definition it was given; '
